@@ -52,7 +52,7 @@ type swapEvt struct {
 	pre       map[string]sdkmath.Int // pool reserves (bank-derived) immediately before the swap
 	used      bool
 	bonus     sdkmath.Int // paid by the rebalance treasury to the recipient inside this swap
-	poolPaid  sdk.Coins   // everything that left the pool's own address while this swap was in flight (output, forwarded fees, anything else)
+	poolPaid  sdk.Coins   // everything the pool's own address paid to the swap's sender and recipient while this swap was in flight
 	poolObj   ammtypes.Pool
 	exactOut  bool // belongs to an exact-out request: the implementation's rounding is on the input side
 }
@@ -232,6 +232,7 @@ func (m *MonSwaps) AfterBlock(s *Sim, eb *ExecBlock) {
 		snap  map[string]sdkmath.Int
 		bonus map[string]sdkmath.Int // recipient|denom -> amount paid by treasury since this entry was pushed
 		paid  sdk.Coins              // transfers out of the pool's own address since this entry was pushed
+		paidTo map[string]sdk.Coins  // the same by destination
 	}
 	var stack []*pending
 	var swaps []*swapEvt
@@ -258,6 +259,10 @@ func (m *MonSwaps) AfterBlock(s *Sim, eb *ExecBlock) {
 				for j := len(stack) - 1; j >= 0; j-- {
 					if stack[j].pool == pi {
 						stack[j].paid = stack[j].paid.Add(x.coins...)
+						if stack[j].paidTo == nil {
+							stack[j].paidTo = map[string]sdk.Coins{}
+						}
+						stack[j].paidTo[x.to] = stack[j].paidTo[x.to].Add(x.coins...)
 						break
 					}
 				}
@@ -291,7 +296,17 @@ func (m *MonSwaps) AfterBlock(s *Sim, eb *ExecBlock) {
 			if p.pool.pool.PoolId == pid && p.from == se.sender && p.coins.Equal(sdk.NewCoins(in)) {
 				se.pre = p.snap
 				se.bonus = zeroIfNil(p.bonus, se.recipient+"|"+out.Denom)
-				se.poolPaid = p.paid
+				// what the pool's own address paid to the trading side (sender and recipient); transfers to
+				// the pool's rebalance treasury and to the protocol's fee collectors are costs of the
+				// trader, not payouts (with the fee-split knobs away from their defaults the weight-breaking
+				// fee forwarded to the treasury can be most of the input)
+				se.poolPaid = sdk.Coins{}
+				for _, to := range []string{se.sender, se.recipient} {
+					if c, ok := p.paidTo[to]; ok {
+						se.poolPaid = se.poolPaid.Add(c...)
+						delete(p.paidTo, to)
+					}
+				}
 				stack = append(stack[:j], stack[j+1:]...)
 				break
 			}
@@ -445,10 +460,9 @@ func (m *MonSwaps) checkPrice(s *Sim, eb *ExecBlock, pool ammtypes.Pool, se *swa
 	if vout.Cmp(lim) > 0 {
 		s.Violate("C03", "oracle_out_value_exceeds_in", culprit, "%s: value out %s > value in %s at oracle prices in=%s out=%s", inst, vout.FloatString(6), vin.FloatString(6), pin, pout)
 	}
-	// the same from the pool's own books: everything that left the pool's address while the swap was
-	// in flight (the output, fees forwarded to the revenue address and the treasury, and anything
-	// else - a rebalancing bonus must come from the treasury, never from the pool) is worth no more
-	// than what came in
+	// the same from the pool's own books: everything the pool's address paid to the trading side
+	// (sender, recipient) while the swap was in flight - the output and anything else; a rebalancing
+	// bonus must come from the treasury, never from the pool - is worth no more than what came in
 	{
 		total := new(big.Rat)
 		allow := new(big.Rat)
@@ -464,7 +478,7 @@ func (m *MonSwaps) checkPrice(s *Sim, eb *ExecBlock, pool ammtypes.Pool, se *swa
 			allow.Add(allow, new(big.Rat).Mul(pr, big.NewRat(2, 1)))
 		}
 		if priced && total.Cmp(new(big.Rat).Add(vin, allow)) > 0 {
-			s.Violate("C03", "oracle_pool_paid_more_than_received", culprit, "%s: the pool's address paid out %s in total while the swap was in flight, worth %s > value in %s at oracle prices (event says out=%s; a bonus may only come from the rebalance treasury)", inst, se.poolPaid, total.FloatString(6), vin.FloatString(6), se.out)
+			s.Violate("C03", "oracle_pool_paid_more_than_received", culprit, "%s: the pool's address paid %s to the trading side while the swap was in flight, worth %s > value in %s at oracle prices (event says out=%s; a bonus may only come from the rebalance treasury)", inst, se.poolPaid, total.FloatString(6), vin.FloatString(6), se.out)
 		}
 		s.Stats.Probe("swap_checked_oracle_pool_total_outflow")
 	}
